@@ -23,3 +23,6 @@ pub assume_specification<T: PartialEq>[ <[T]>::contains ](s: &[T], x: &T) -> (r:
 pub assume_specification<T: Clone>[ <[T]>::to_vec ](s: &[T]) -> (r: Vec<T>)
     ensures r@ == s@;
 
+// string slices are values: equal text means equal (used to move between `&str` equality and views)
+pub broadcast axiom fn axiom_str_ext(a: &str, b: &str)
+    ensures #[trigger] a@ == #[trigger] b@ ==> a == b;
